@@ -283,7 +283,7 @@ def get_ratio(f):
         return (f, 1)
     return f.as_integer_ratio()
 def comb_div_frac(c, f):
-    return comb_times_frac(c, 1/f)
+    return comb_times_frac(c, frac(1, f))
 def frac_times_comb(f, c):
     return comb_times_frac(c, f)
 def frac_div_comb(f, c):
